@@ -15,7 +15,7 @@ validates the translators themselves (run by hand; results quoted in DESIGN.md 1
 import os, re, subprocess, sys, tempfile, shutil
 HERE = os.path.dirname(os.path.abspath(__file__))
 sys.path.insert(0, HERE)
-import extract_cmp, extract_bmca, extract_announce
+import extract_cmp, extract_bmca, extract_announce, extract_msgs
 REPO = os.environ.get("VERIF_REPO", "/repo")
 LEAN = os.path.join(HERE, "..", "lean")
 CMP = "statime/src/bmc/dataset_comparison.rs"
@@ -64,6 +64,16 @@ MUTANTS = [
     ("best: compare_dataset operands swapped", BMCA, "data1.compare(&data2)", "data2.compare(&data1)", "break"),
     ("best: tie-break consulted first", BMCA, "self.compare_dataset(other).as_ordering().then(tie_break)", "tie_break.then(self.compare_dataset(other).as_ordering())", "break"),
     ("best: minimum instead of maximum", BMCA, ".max_by(BestAnnounceMessage::compare)", ".min_by(BestAnnounceMessage::compare)", "break"),
+    ("sync: one-step flag", MSG, "            two_step_flag: true,\n            ..base_header(default_ds, port_identity, sequence_id, minor_ptp_version)\n        };\n\n        Message {\n            header,\n            body: MessageBody::Sync(",
+     "            two_step_flag: false,\n            ..base_header(default_ds, port_identity, sequence_id, minor_ptp_version)\n        };\n\n        Message {\n            header,\n            body: MessageBody::Sync(", "break"),
+    ("follow_up: correction left zero", MSG, "            correction_field: timestamp.subnano(),\n            ..base_header(default_ds, port_identity, sequence_id, minor_ptp_version)", "            ..base_header(default_ds, port_identity, sequence_id, minor_ptp_version)", "break"),
+    ("delay_req: log interval 0", MSG, "log_message_interval: 0x7f,", "log_message_interval: 0,", "break"),
+    ("delay_resp: requester identity is our own", MSG, "requesting_port_identity: request_header.source_port_identity,\n        });\n\n        Message {\n            header,\n            body,\n            suffix: TlvSet::default(),\n        }\n    }\n\n    pub(crate) fn pdelay_req(",
+     "requesting_port_identity: port_identity,\n        });\n\n        Message {\n            header,\n            body,\n            suffix: TlvSet::default(),\n        }\n    }\n\n    pub(crate) fn pdelay_req(", "break"),
+    ("delay_resp: source identity not replaced", MSG, "            two_step_flag: false,\n            source_port_identity: port_identity,\n", "            two_step_flag: false,\n", "break"),
+    ("delay_resp: request correction dropped", MSG, "correction_field: TimeInterval(\n                request_header\n                    .correction_field\n                    .0\n                    .saturating_add(timestamp.subnano().0),\n            ),",
+     "correction_field: timestamp.subnano(),", "break"),
+    ("delay_resp: header fields re-ordered (same meaning)", MSG, "            two_step_flag: false,\n            source_port_identity: port_identity,\n", "            source_port_identity: port_identity,\n            two_step_flag: false,\n", "hold"),
     ("announce: leap flags crossed", MSG, "leap59: time_properties_ds.leap_indicator == LeapIndicator::Leap59,\n            leap61: time_properties_ds.leap_indicator == LeapIndicator::Leap61,",
      "leap59: time_properties_ds.leap_indicator == LeapIndicator::Leap61,\n            leap61: time_properties_ds.leap_indicator == LeapIndicator::Leap59,", "break"),
     ("announce: traceable flags crossed", MSG, "time_tracable: time_properties_ds.time_traceable,\n            frequency_tracable: time_properties_ds.frequency_traceable,",
@@ -91,7 +101,8 @@ open Statime in
 example : Generated.cmpDispatch.isSome ∧ Generated.figure35Arms.isSome ∧ Generated.figure34Chain.isSome ∧
     Generated.figure34Arms.isSome ∧ Generated.asOrderingTable.isSome ∧ Generated.ofAnnounceTable.isSome ∧
     Generated.ofOwnTable.isSome ∧ Generated.accuracyComparedByOctet = some true ∧ Generated.decisionTable.isSome ∧ Generated.bestCompareTable.isSome ∧ Generated.findBestIsMaxBy = some true ∧
-    Generated.announceFlagTable.isSome ∧ Generated.announceBodyTable.isSome ∧ Generated.timePropertiesTable.isSome ∧
+    Generated.announceFlagTable.isSome ∧ Generated.announceBodyTable.isSome ∧ Generated.timePropertiesTable.isSome ∧ Generated.syncCtor.isSome ∧ Generated.followUpCtor.isSome ∧
+    Generated.delayReqCtor.isSome ∧ Generated.delayRespCtor.isSome ∧ Generated.pdelayReqCtor.isSome ∧
     Generated.announceBaseHeaderAsModelled = some true := by decide
 """
 
@@ -110,6 +121,7 @@ def main():
     tmp = tempfile.mkdtemp(prefix="xlate-selftest-")
     sec = section()
     sec11 = section("C11")
+    sec10 = section("C10")
     bad = 0
     try:
         for i, (name, rel, old, new, expect) in enumerate(MUTANTS):
@@ -125,11 +137,12 @@ def main():
                 return t
             out, deg = {}, []
             w = lambda n, t: out.__setitem__(n, t)
-            extract_cmp.run(read, w, deg); extract_bmca.run(read, w, deg); extract_announce.run(read, w, deg)
-            lean = ("import StatimeModel.Lemmas.CmpGen\nimport StatimeModel.Lemmas.DecisionGen\nimport StatimeModel.Lemmas.AnnounceGen\n" +
-                    body(out["DatasetComparison.lean"]) + body(out["StateDecision.lean"]) + body(out["AnnounceCtor.lean"]) +
+            extract_cmp.run(read, w, deg); extract_bmca.run(read, w, deg); extract_announce.run(read, w, deg); extract_msgs.run(read, w, deg)
+            lean = ("import StatimeModel.Lemmas.CmpGen\nimport StatimeModel.Lemmas.DecisionGen\nimport StatimeModel.Lemmas.AnnounceGen\nimport StatimeModel.Lemmas.MsgGen\n" +
+                    body(out["DatasetComparison.lean"]) + body(out["StateDecision.lean"]) + body(out["AnnounceCtor.lean"]) + body(out["MsgCtors.lean"]) +
                     "\nnamespace Statime.C05\nopen Statime\n" + sec + "\nend Statime.C05\n" +
-                    "\nnamespace Statime.C11\nopen Statime\n" + sec11 + "\nend Statime.C11\n" + (COMPLETE if not old else ""))
+                    "\nnamespace Statime.C11\nopen Statime\n" + sec11 + "\nend Statime.C11\n" +
+                    "\nnamespace Statime.C10\nopen Statime\n" + sec10 + "\nend Statime.C10\n" + (COMPLETE if not old else ""))
             path = os.path.join(tmp, f"m{i}.lean")
             open(path, "w").write(lean)
             r = subprocess.run(["lake", "env", "lean", path], cwd=LEAN, capture_output=True, text=True)
